@@ -49,6 +49,20 @@ def shardOp (a : List String) : Option String := do
     pure s!"raw={showRaw (shardRaw m km hash cnt)} agent={showAgent (agentShard m km hash cnt ns)} api={showApi m cnt}"
   | _ => none
 
+def parseStags? (s : String) : Option (List (List UInt8)) :=
+  (parseList s).mapM parseHex?
+
+def keyOp (a : List String) : Option String := do
+  match a with
+  | [ts, metric, tags, stags] =>
+    let ts ← ts.toNat?
+    let metric ← metric.toInt?
+    let tags ← parseIntList? tags
+    let stags ← parseStags? stags
+    let k : Key := { ts := ts, metric := metric, tags := tags, stags := stags }
+    pure s!"m={showHex (marshalKey k)} in={showHex (hashInput k)}"
+  | _ => none
+
 def repOp (a : List String) : Option String := do
   match a with
   | [_ns, _shard, t, mask] =>
@@ -76,6 +90,7 @@ def step (s : St) (toks : List String) : St × List String :=
   match toks with
   | "shard" :: a => (s, [(shardOp a).getD "bad-op"])
   | "rep" :: a => (s, [(repOp a).getD "bad-op"])
+  | "key" :: a => (s, [(keyOp a).getD "bad-op"])
   | ["agg", "new", rk, sw, hw] =>
     match rk.toNat?, sw.toNat?, hw.toNat? with
     | some rk, some sw, some hw =>
